@@ -79,3 +79,13 @@ val nsync_mu_semaphore_p_with_deadline_cas1_new : coq_Z -> coq_Z
 val nsync_mu_semaphore_p_with_deadline_cas1_guard : coq_Z -> coq_Z -> bool
 
 val nsync_mu_semaphore_v_cas1_new : coq_Z -> coq_Z
+
+val nsync_run_once_impl_cas1_new : coq_Z
+
+val nsync_run_once_impl_cas1_old : coq_Z
+
+val nsync_run_once_impl_cas1_guard : coq_Z -> bool
+
+val nsync_run_once_impl_load2_guard : coq_Z -> bool
+
+val nsync_run_once_impl_store1_new : coq_Z
